@@ -5,7 +5,7 @@ From Verif.C04_KV Require Import Model.
 Import ListNotations.
 Open Scope N_scope.
 
-Record case := mk { c_hist : list op; c_outs : list out; c_log : list logent (* oldest first *) }.
+Record case := mk { c_hist : list op; c_outs : list out; c_log : list logent (* oldest first *); c_nfl : nat }.
 
 Fixpoint list_eqb {A} (eqb : A -> A -> bool) (a b : list A) : bool :=
   match a, b with
@@ -32,7 +32,7 @@ Definition logent_eqb (a b : logent) : bool :=
 
 Definition agree (c : case) : bool :=
   let '(w, outs) := run init (c_hist c) in
-  list_eqb out_eqb outs (c_outs c) && list_eqb logent_eqb (rev (log (w_st w))) (c_log c).
+  list_eqb out_eqb outs (c_outs c) && list_eqb logent_eqb (rev (log (w_st w))) (c_log c) && Nat.eqb (nfl (w_st w)) (c_nfl c).
 
 Fixpoint mismatches_from (i : nat) (cs : list case) : list nat :=
   match cs with
